@@ -104,7 +104,7 @@ var checks = map[string]*Check{
 	"C14": {ID: "C14", Parts: []Part{{Harness: "sio", Func: "C14sio"}, {Harness: "sio", Func: "C14stdio"}, {Harness: "mdb", Func: "C14mdb"}, {Harness: "mdb", Func: "C14mdbRepl"}, {Harness: "mcrew", Func: "C14mcrew"}, {Harness: "mcrew", Func: "C14http"}}, GoMaxProcs: 1, Category: "model_checking", QuickDeadline: 240, ThoroughDeadline: 1500,
 		Engine: "E1+E2", DesignRef: "6/C14",
 		Technique:   "exhaustive enumeration of crews x routing targets x emission scripts x message-history depth on the real crew hosts, under every machine-iteration order within a deviation bound (vrange), against a breadth-first reference router",
-		LevelText:   "Every crew of 1-3 recorder machines, every routing target shape and every emission script up to the counter depth is processed by the real crew; per-machine receive logs, Result.Emitted and emission order are compared with a reference router, under every explored map-iteration order. The hosts are also driven the way they are run: text lines on the input of the real sio.Stdio processed by the real Crew.Loop (every short sequence of lines over lengths at and around the reader's buffer sizes, line ends, comments, junk, quit), and the mcrew scenarios through Service.Listener's text protocol (machines added and messages submitted as lines, dressed with comments, CRLF, junk, 70 kB payloads): every message on a line is presented exactly once to the machines it addresses.",
+		LevelText:   "Every crew of 1-3 recorder machines, every routing target shape and every emission script up to the counter depth is processed by the real crew; per-machine receive logs, Result.Emitted and emission order are compared with a reference router, under every explored map-iteration order. The hosts are also driven the way they are run: text lines on the input of the real sio.Stdio processed by the real Crew.Loop (every short sequence of lines over lengths at and around the reader's buffer sizes, line ends, comments, junk, quit), and the mcrew scenarios through Service.Listener's text protocol (machines added and messages submitted as lines, dressed with comments, CRLF, junk, 70 kB payloads): every message on a line is presented exactly once to the machines it addresses. mcrew's http service: every combination of server behaviour (answers at once / late / with an error status / drops the connection / unreachable), reply target, timeout member and method - the answer is presented exactly once per request to the machine named, or to all.",
 		LevelNote:   "Trusted: the reference router (documented recipient rule per host) and the recorder script.",
 		Assumptions: commonAssumptions},
 	"C16": {ID: "C16", Parts: []Part{{Harness: "mcrew", Func: "C16", Race: true}}, Category: "model_checking", QuickDeadline: 240, ThoroughDeadline: 1500, GoMaxProcs: 1,
@@ -128,7 +128,7 @@ var checks = map[string]*Check{
 	"C12": {ID: "C12", Parts: []Part{{Harness: "corec", Func: "C12", Race: true}, {Harness: "mcrew", Func: "C12mcrew", Race: true}, {Harness: "sio", Func: "C12sio", Race: true}}, Category: "model_checking", QuickDeadline: 240, ThoroughDeadline: 1500, GoMaxProcs: 1,
 		Engine: "E2", DesignRef: "6/C12",
 		Technique:   "stateless schedule exploration of concurrent walks over one compiled spec (yield points inside native and ECMAScript actions/guards, shimmed atomics of UpdatableSpec) with per-walk solo-equivalence oracle, plus a ThreadSanitizer pass on the explored schedules",
-		LevelText:   "Every interleaving (within the deviation bound) of 2-3 concurrent walks of distinct machines over one compiled specification, and of walks with concurrent SetSpec calls on an UpdatableSpec, is executed on the real code; each walk must equal its solo result under exactly one version (never a version older than a completed SetSpec), the spec's deep snapshot must not change, and ThreadSanitizer must stay silent. On the mcrew host, client threads issuing process, add and get-spec requests against a Service that has not handed the specification out yet are explored the same way: every caller gets a compiled specification and the result of some sequential order.",
+		LevelText:   "Every interleaving (within the deviation bound) of 2-3 concurrent walks of distinct machines over one compiled specification, and of walks with concurrent SetSpec calls on an UpdatableSpec, is executed on the real code; each walk must equal its solo result under exactly one version (never a version older than a completed SetSpec), the spec's deep snapshot must not change, and ThreadSanitizer must stay silent. On the mcrew host, client threads issuing process, add and get-spec requests against a Service that has not handed the specification out yet are explored the same way: every caller gets a compiled specification and the result of some sequential order. On the sio host, a Go host that hands one SpecSource object to SetMachine for several machines and crews and edits it between calls: every operation sequence up to the bound and every schedule of a walk against concurrent SetMachine calls - each machine runs exactly the version it was last given, never a mix.",
 		LevelNote:   "Trusted: rt/sched; yield points are placed in actions and guards (the engine code between them runs atomically in a schedule); ThreadSanitizer covers the accesses in between. goja internals are not scheduling points.",
 		Assumptions: commonAssumptions},
 	"C17": {ID: "C17", Parts: []Part{{Harness: "mcrew", Func: "C17mcrew", Race: true}, {Harness: "mcrew", Func: "C17glue", Race: true}, {Harness: "sio", Func: "C17sio", Race: true}}, Category: "model_checking", QuickDeadline: 240, ThoroughDeadline: 1500, GoMaxProcs: 1,
@@ -152,7 +152,7 @@ var checks = map[string]*Check{
 	"C13": {ID: "C13", Parts: []Part{{Harness: "core", Func: "C13"}, {Harness: "sio", Func: "C13sio"}, {Harness: "mcrew", Func: "C13mcrew"}, {Harness: "tools", Func: "C13inline"}, {Harness: "msimple", Func: "C13msimple"}, {Harness: "spectool", Func: "C13spectool"}}, Category: "exploration", QuickDeadline: 240, ThoroughDeadline: 1500,
 		Engine: "E1", DesignRef: "6/C13",
 		Technique:   "bounded-exhaustive enumeration of abstract specs x representations x pattern syntaxes x compile variants; differential of complete behaviour trees (all message sequences up to a bound) against the Go-structure rendering",
-		LevelText:   "Every abstract spec of the family is rendered in every supported representation and pattern syntax, compiled once / twice / through a serialise-reload cycle, and its complete behaviour tree over all short message sequences must equal that of the Go-structure rendering; recompilation must not change the spec; unknown interpreters, branching types and pattern syntaxes must be rejected by Compile. The hosts' own loaders (sio.ResolveSpecSource for inline / JSON-file / YAML-file sources, mcrew's Service.GetSpec for YAML files, cmd/msimple's main() for YAML files with and without %inline'd action sources) are driven, and the repository's own converters (spectool yamltojson / jsontoyaml / analyze) are run on a specification under every combination of the error-handling settings: their output must behave like their input; the loaders are driven with a family of specs over patterns of every JSON shape and must give the behaviour of the Go-structure rendering.",
+		LevelText:   "Every abstract spec of the family is rendered in every supported representation and pattern syntax, compiled once / twice / through a serialise-reload cycle, and its complete behaviour tree over all short message sequences must equal that of the Go-structure rendering; recompilation must not change the spec; unknown interpreters, branching types and pattern syntaxes must be rejected by Compile. The hosts' own loaders (sio.ResolveSpecSource for inline / JSON-file / YAML-file sources, mcrew's Service.GetSpec for YAML files, cmd/msimple's main() for YAML files with and without %inline'd action sources) are driven, and the repository's own converters (spectool yamltojson / jsontoyaml / analyze) are run on a specification under every combination of the error-handling settings: their output must behave like their input; the loaders are driven with a family of specs over patterns of every JSON shape and must give the behaviour of the Go-structure rendering. spectool's editing commands (addMessageBranches, addOrderedOutMessages) over patterns and message lists holding strings, integers, fractions, large numbers, arrays and nested maps: the specification they write must behave like the same edit made on the Go structures (one open finding: the YAML library the repository writes with rounds numbers to float32 precision).",
 		LevelNote:   "Trusted: the document renderers (rt/ref/rstep Doc/YAML), encoding/json and the two YAML libraries as loaders (they are what the hosts use).",
 		Assumptions: commonAssumptions},
 	"C09": {ID: "C09", Parts: []Part{{Harness: "core", Func: "C09"}, {Harness: "mcrew", Func: "C09mcrew"}, {Harness: "sio", Func: "C09sio"}}, Category: "model_checking", QuickDeadline: 240, ThoroughDeadline: 1500,
